@@ -278,7 +278,13 @@ def decode(ctx, rep):
     # advance(1) on the split-off frame
     a0 = strip_refs(b.origin(ad[1]["args"][0]))
     a1 = b.origin(ad[1]["args"][1])
-    rep.check("R4.2", "skip-size-byte", a0[0] == "call" and a0[4] == st[0] and a1[0] == "const" and a1[1] == 1,
+    one = a1[0] == "const" and a1[1] == 1
+    if not one and a1[0] == "call" and re.search(r"<impl \[T\]>::len$", a1[1] or "") and a1[3]:
+        # `advance(SIZE_PLACEHOLDER.len())`: the length of a constant one-element array
+        from props.c03_mir import const_array_len
+        ca = const_array_len(ctx, a1[3][0])
+        one = ca is not None and ca[0] == 1
+    rep.check("R4.2", "skip-size-byte", a0[0] == "call" and a0[4] == st[0] and one,
               "the size byte must be skipped with advance(1) on the split-off frame (found %s, %s)" % (fmt_origin(a0), fmt_origin(a1)), b.loc(ad[1]["line"]))
     # cursor over the frame, not over src
     c0 = strip_refs(b.origin(cn[1]["args"][0]))
